@@ -1273,6 +1273,11 @@ func replay(p string) {
 		if kvField(ans[0], "spec") != e {
 			res.SpecFail(vh.SpecFailure{Section: "tagseval", Kind: "from-expr-wrong", Input: c, Impl: e, Spec: kvField(ans[0], "spec"), What: "the built tag condition disagrees with the reference meaning of the expression"})
 		}
+	case "drop":
+		var c dropCase
+		json.Unmarshal(rp.Input, &c)
+		sec := res.Section("drop", "replay", "replay of one recorded create / drop / re-address history")
+		runDropCase(c, sec)
 	case "held":
 		var w struct {
 			Case heldCase `json:"case"`
@@ -1324,6 +1329,7 @@ func main() {
 	guard("selection", func() { sectionSelection(rng.Fork("selection")) })
 	guard("race", func() { sectionRace(rng.Fork("race")) })
 	guard("many", func() { sectionMany(rng.Fork("many")) })
+	guard("drop", func() { sectionDrop(rng.Fork("drop")) })
 	guard("held", func() { sectionHeld(rng.Fork("held")) })
 	guard("idgen", func() { sectionIdgen(rng.Fork("idgen")) })
 	res.Write(args.Out)
